@@ -99,12 +99,21 @@ func LoadClassBoards(user *ptttype.UserecRaw, uid ptttype.UID, classBid ptttype.
 	boardStats := make([]*ptttype.BoardStat, 0, brdSize)
 	var eachBoardStat *ptttype.BoardStat
 	var eachErr error
-	for bid := board.FirstChild[bsortBy]; bid > 0 && len(boardStats) < brdSize; bid = board.Next[bsortBy] {
+	for bid := board.FirstChild[bsortBy]; bid > 0 && len(boardStats) < brdSize; {
 		if !bid.IsValid() {
 			break
 		}
 
-		eachBoardStat, board, eachErr = loadClassBoardStat(user, uid, bid, false)
+		// the next sibling comes from the child's own header:
+		// loadClassBoardStat returns no header for a child it skips.
+		child, childErr := cache.GetBCache(bid)
+		if childErr != nil {
+			break
+		}
+		nextBid := child.Next[bsortBy]
+
+		eachBoardStat, _, eachErr = loadClassBoardStat(user, uid, bid, false)
+		bid = nextBid
 		if eachErr != nil {
 			continue
 		}
